@@ -78,4 +78,29 @@ var props = map[string]*propCfg{
 		RequiredProbes: []string{"repeated_evaluations"},
 		FaultKinds:     []string{"map_permute", "pool_flush", "clock_jump", "zone_switch", "preempt"},
 	},
+	"C11": {
+		ID: "C11", Scenario: "bridge", Race: false,
+		QuickRuns: 300000, ThorRuns: 6000000, QuickChunk: 5000, ThorChunk: 10000, ChunkTimeoS: 600,
+		Rule: "one evaluation = one simulated run: 1-6 host functions with seed-derived signatures (parameter kinds string, bool, int, int8-64, float32/64, interface{}, *decimal.Big, time.Time, slices and string-keyed maps of these, variadic tails, optional leading context; result kinds int, int32, int64, float32, float64, string, bool, interface{}, *decimal.Big) synthesised with reflect.MakeFunc, and one formula `[call, call, ...]` whose calls have argument lists of length 0..n+2 over all value kinds, with and without spread, nested in arguments, arrays and conditional branches; evaluated fault-free and then with a returned error at every host-call position (enumerated). The recorded invocations (order, converted arguments, context identity) and the outcome are compared with a three-valued declarative model (must call / must fail without calling / unspecified). Non-trivial: at least one evaluated call or a predicted failure; distinct = distinct hash of formula text and recorded invocation logs.",
+		Assumptions: []string{
+			"cells the statement does not fix (null to non-interface parameters, text of arrays/times/maps as strings, numeric-looking strings to numbers, out-of-range integers, values that came through a float32) are UNSPECIFIED: only the specified prefix of the invocation log is checked for that evaluation",
+			"conversion to string-keyed map parameters is read as element-wise, like slices",
+			"a clean batch is evidence, not proof",
+		},
+		RequiredProbes: []string{"bridge_calls_generated", "arity:fixed:fits", "arity:fixed:error", "arity:variadic:fits", "arity:variadic+spread:fits", "arity:fixed+spread:error", "cell:interface{} <- null", "cell:int <- number", "cell:string <- number", "cell:float64 <- number", "cell:time.Time <- time", "cell:bool <- number"},
+		FaultKinds:     []string{"host_error"},
+	},
+	"C19": {
+		ID: "C19", Scenario: "clock", Race: false,
+		QuickRuns: 30000, ThorRuns: 2000000, QuickChunk: 500, ThorChunk: 5000, ChunkTimeoS: 600,
+		Rule: "one evaluation = one simulated run: a seed-chosen process zone, a simulated wall clock and 5-200 operations on one runner: now()/toDay() with the clock placed anywhere in years 1-9999 or just before local midnight and ticking (0 .. 36 h, sometimes backwards) after every read inside the call; date(y,m,d) with months and days from -50 to +60; the eight field extractors, addDate with shifts up to +-400 years / +-5000 months and days, useTimezone against a simulated zone database with intact, missing, empty, torn and garbage files, timeFormat with numeric layouts, and date->extractor chains through locals. Oracles: wall-clock bracket of the call; independent days-from-civil arithmetic; the real time.LoadLocation under the same directory. Non-trivial: at least two operations; distinct = distinct hash of the operation list.",
+		Assumptions: []string{
+			"the UTC offset in force at an instant is taken from Go's time package (real tz parser, real zone files); everything else in the oracle is independent integer arithmetic",
+			"where a local wall time does not exist or is ambiguous (zone transition) either adjacent offset is accepted, as Go documents for time.Date",
+			"addDate results outside years 1-9999 and timeFormat of zones with sub-minute offsets are not judged",
+			"a clean batch is evidence, not proof",
+		},
+		RequiredProbes: []string{"clock_ops", "midnight_crossed_inside_a_clock_call", "date_with_carry", "usetz_good_zone", "extract_outside_int64_nanosecond_range"},
+		FaultKinds:     []string{"clock_tick", "clock_jump_fwd", "clock_jump_back", "clock_boundary", "zone_switch", "zone_missing", "zone_empty", "zone_torn", "zone_malformed"},
+	},
 }
